@@ -2,11 +2,13 @@
 """Copy what a sub-agent left in /tmp/seed/<ID>/_seed/ into /verif/seeded/<ID>-<k>/ (patch.diff, demo.py, notes.md, meta.json)."""
 import os, sys, json, shutil
 pid = sys.argv[1]
-src = f"/tmp/seed/{pid}/_seed"
+base = sys.argv[2] if len(sys.argv) > 2 else "/tmp/seed"
+offset = int(sys.argv[3]) if len(sys.argv) > 3 else 0
+src = f"{base}/{pid}/_seed"
 for k in (1, 2, 3):
     if not os.path.exists(f"{src}/patch{k}.diff"):
         continue
-    dst = f"/verif/seeded/{pid}-{k}"
+    dst = f"/verif/seeded/{pid}-{k + offset}"
     os.makedirs(dst, exist_ok=True)
     shutil.copy(f"{src}/patch{k}.diff", f"{dst}/patch.diff")
     shutil.copy(f"{src}/demo{k}.py", f"{dst}/demo.py")
